@@ -15,7 +15,7 @@ From Coq Require Import List Arith NArith Bool.
 Import ListNotations.
 Require Import Aiuti.Buffer Aiuti.BufferCore Aiuti.BufferFlag Aiuti.BufferInv Aiuti.BufferJoin
                Aiuti.BufferQuiet Aiuti.BufferProgress Aiuti.BufferWait Aiuti.BufferReturn Aiuti.Case_Buffer
-               Aiuti.Case_C07 Aiuti.BufferMon Aiuti.BufferMonSound.
+               Aiuti.Case_C07 Aiuti.BufferMon Aiuti.BufferMonSound Aiuti.BufferMon7.
 
 (* The barrier.  For EVERY history evs and next event e: if WaitRet w is observed
    in the macro step of e, then the history contains the (accepted, i.e. live
@@ -172,6 +172,41 @@ Theorem walk_monitor_sound :
          exists t n, In (WaitRet w t n) (concat observed)).
 Proof. exact C7.c07_walk_sound. Qed.
 Print Assumptions walk_monitor_sound.
+
+(* COMPLETENESS of the whole monitor.  For EVERY timeout and EVERY event list (all producer kinds, producer
+   failures, function outcomes, waits with and without cancel, shutdown at any point, foreign halves) the
+   trace monitor Case_C07.ok = ok_shut && ok_walk accepts the model's own trace — including, at every
+   WaitRet, the barrier check against the input tracker (everything handed over through the producers
+   submitted before that wait() is in a call that ended well; none of them is still open; the success
+   count is right), "no call starts after shutdown", and "settled tail with no bare foreign clear
+   pending => no wait() is left without its WaitRet".  So on any case where the implementation's trace
+   equals the model's trace the monitor cannot raise an alarm. *)
+Theorem monitor_complete :
+  forall (T : N) (evs : list event), Case_C07.ok (Case T evs (trace T evs)) = true.
+Proof. exact M7.c07_monitor_complete. Qed.
+Print Assumptions monitor_complete.
+
+(* Two facts of the model behind it.  (1) When a wait() returns, no producer submitted before that
+   wait() is still open — in the sense of the INPUT tracker (what the script has closed), not only of
+   the model's own bookkeeping. *)
+Theorem returned_wait_producers_closed :
+  forall (T : N) (evs : list event) (e : event) (w : nat) (t : N) (n : nat),
+    In (WaitRet w t n) (snd (step (final T evs) e)) ->
+    forall pre c post,
+      evs ++ [e] = pre ++ Wait w c :: post -> is_dead (final T pre) = false ->
+      existsb (Nat.eqb w) (wseen (final T pre)) = false ->
+      forall p, In p (seen (final T pre)) -> is_open p (trk_run trk0 (evs ++ [e])) = false.
+Proof. exact notopen_lemma. Qed.
+Print Assumptions returned_wait_producers_closed.
+
+(* (2) If the script lets the buffer settle (every asynchronous producer closed, then
+   FnOk; Advance d>=T; FnOk, no Shutdown) and no bare foreign clear is pending before that tail,
+   nobody is left inside wait(). *)
+Theorem settled_means_no_waiter :
+  forall (T : N) (evs : list event),
+    settled_waits T evs = true -> is_dead (final T evs) = false /\ waiters (final T evs) = [].
+Proof. exact M7.settled_no_waiters. Qed.
+Print Assumptions settled_means_no_waiter.
 
 Theorem monitor_implies_shutdown_part : forall c, Case_C07.ok c = true -> ok_shut c = true.
 Proof. exact ok_implies_shut. Qed.
